@@ -489,6 +489,13 @@ func c02Check(writer string, x interface{}) (ds []keyed, out []byte) {
 		a.str("ActivityVocabularyType", "value", string(v), root, exact)
 	case ap.MimeType:
 		a.str("MimeType", "value", string(v), root, exact)
+	case ap.LangRefValue:
+		// a lone language value: a JSON string holding the text, or a one-member object {tag: text}
+		if root.Kind == "object" && len(root.Members) == 1 {
+			a.str("LangRefValue", "value", string(v.Value), root.Members[0].Val, exact)
+		} else {
+			a.str("LangRefValue", "value", string(v.Value), root, exact)
+		}
 	case ap.NaturalLanguageValues:
 		fake := struct {
 			Name ap.NaturalLanguageValues `jsonld:"name"`
@@ -661,6 +668,8 @@ func TestC02(t *testing.T) {
 		{"NaturalLanguageValues-map", func(h string) interface{} {
 			return ap.NaturalLanguageValues{{Ref: "en", Value: ap.Content(h)}, {Ref: "de", Value: ap.Content("hallo")}}
 		}},
+		{"LangRefValue-untagged", func(h string) interface{} { return ap.LangRefValue{Ref: ap.NilLangRef, Value: ap.Content(h)} }},
+		{"LangRefValue-tagged", func(h string) interface{} { return ap.LangRefValue{Ref: "en", Value: ap.Content(h)} }},
 		{"Source", func(h string) interface{} { return ap.Source{MediaType: ap.MimeType(h), Content: ap.DefaultNaturalLanguageValue(h)} }},
 		{"PublicKey", func(h string) interface{} {
 			return ap.PublicKey{ID: ap.IRI(hostileIRI(h)), Owner: ap.IRI(hostileIRI(h)), PublicKeyPem: h}
